@@ -17,7 +17,7 @@ func init() {
 	core.Register(&core.Check{
 		ID: "C19", Level: "other", Title: "Side-chain trust roots are installed at most once",
 		Explain: "Sibling template over every implementation of HeaderSyncHandler.SyncGenesisHeader (enumerated with types.Implements): (1) the key-shape summary gives the storage shapes the method writes (G) and the calls in it that read storage; an installed-check is a call whose read shape unifies with a shape in G (so the check observes a previous installation, for the same chain id where the id is traceable); (2) every storage-writing call AND every success return is dominated by the installed-check's not-installed edge (stored value nil / boolean false), i.e. when a root is already stored nothing is written and the call fails; (3) boolean wrappers (isGenesisStored) are proved one level down: they return false with a nil error only when the underlying read returned nil. Assumption for the Tendermint idiom (err==nil && info!=nil ⇒ reject): a stored record decodes without error. NOT decided: that the stored root is not mutated by later header syncing (C27–C31).",
-		Run: runC19,
+		Run:     runC19,
 	})
 }
 
